@@ -192,6 +192,7 @@ func judgeC05(hi *Hist) []*Violation {
 				add("vanished", "bar %d left after frame %d although it is not set to be removed, popped or replaced: %s", bf.Idx, L, frames[L])
 			} else {
 				_ = stopAt
+				note("bar_left_legally")
 			}
 		}
 	}
@@ -205,6 +206,7 @@ func judgeC05(hi *Hist) []*Violation {
 			add("notifier-twice", "a second value arrived on the shutdown notifier: %v", e.V)
 			break
 		}
+		note("notifier_checked")
 		got := e.V.([]int)
 		seen := map[int]bool{}
 		for _, b := range got {
@@ -317,6 +319,7 @@ func judgeC03(hi *Hist) []*Violation {
 		return out
 	}
 	last := frames[len(frames)-1]
+	note("last_frame_checked")
 	seen := map[int]int{}
 	for _, g := range last.Groups {
 		seen[g.Bar]++
@@ -496,6 +499,7 @@ func judgeC13(hi *Hist) []*Violation {
 			}
 		}
 		for _, l := range ls {
+			note("user_lines_checked")
 			n := len(where[l])
 			switch {
 			case !okRet:
